@@ -36,6 +36,13 @@ func NewView(c *Case, r *harness.Result) (*View, error) {
 // NewViewFor builds the analysis of the run of client i: the model is evaluated for that client's
 // input and only the events of deployments made by that client's run are considered.
 func NewViewFor(c *Case, r *harness.Result, i int) (*View, error) {
+	if i < len(c.Clients) && c.Clients[i].Workflow == 1 && c.Program2 != nil {
+		// this client ran the second preparation, which was given other sub-workflow files: its reference is
+		// the program with those files
+		cc := *c
+		cc.Program = c.Program2
+		c = &cc
+	}
 	v := &View{C: c, R: r, Starts: map[string][]world.Event{}, Ends: map[string][]world.Event{}}
 	docAny := map[string]any(c.Doc)
 	name := "c0"
